@@ -100,6 +100,22 @@ class Rewriter(ast.NodeTransformer):
         node.body.insert(k, self._tick(qual))
         return node
 
+    def visit_Import(self, node):
+        # `import struct` binds the shim right away, so that formats precompiled while the module
+        # body runs (struct.Struct(...), bound .pack) are modelled too
+        out = []
+        for al in node.names:
+            if al.name == "struct":
+                out.append(ast.Assign([ast.Name(al.asname or "struct", ast.Store())], ast.Name("_sx_mod_struct", ast.Load())))
+            else:
+                out.append(ast.Import([al]))
+        return out
+
+    def visit_ImportFrom(self, node):
+        if node.module == "struct" and node.level == 0 and all(al.name != "*" for al in node.names):
+            return [ast.Assign([ast.Name(al.asname or al.name, ast.Store())], ast.Attribute(ast.Name("_sx_mod_struct", ast.Load()), al.name, ast.Load())) for al in node.names]
+        return node
+
     def visit_AnnAssign(self, node):
         if node.value is not None:
             node.value = self.visit(node.value)
@@ -153,7 +169,10 @@ class Loader(importlib.abc.Loader):
             src = f.read()
         code = instrument(src, self.path, self.fullname)
         module.__dict__.update(HELPERS)
-        exec(code, module.__dict__)
+        from .shims import patched_functools
+
+        with patched_functools():
+            exec(code, module.__dict__)
         if module.__dict__.get("struct") is struct:
             module.__dict__["struct"] = SymStruct
         if module.__dict__.get("ctypes") is ctypes:
